@@ -274,7 +274,7 @@ func TestBootCross(t *testing.T) {
 	pbt.Run(t, genBoot, checkBoot)
 }
 
-// ---- the listed reproduction of the known finding ----------------------------------------------
+// ---- regressions of the two repaired defects ---------------------------------------------------
 
 // phaseInput: n fixed sequences around one ORF (no random choice: a constant input)
 func phaseInput(n int) []gen.Row {
@@ -297,8 +297,16 @@ type phaseRepro struct {
 	Runs      int    `json:"runs"`
 }
 
-// TestPhaseOrder executes the reproduction listed for the known finding: 80 sequences,
-// `goalign phase|phasent --unaligned -t 8`, 6 executions, compared with each other and with -t 1
+// orderOnly words a difference: the same records in another order, or different records
+func orderOnly(a, b snap) string {
+	if diffSnap(canonical(a), canonical(b)) == "" {
+		return "the same records in a different order"
+	}
+	return "different records"
+}
+
+// TestPhaseOrder is the reproduction of the defect repaired by f25e994: 80 sequences,
+// `goalign phase|phasent --unaligned -t 8`, 6 executions, all byte-identical to `-t 1`
 func TestPhaseOrder(t *testing.T) {
 	if cli.Binary() == "" {
 		t.Skip("no goalign binary")
@@ -307,56 +315,36 @@ func TestPhaseOrder(t *testing.T) {
 	defer os.RemoveAll(dir)
 	rows := phaseInput(80)
 	in := cli.TempFile(dir, ".fa", cli.Fasta(rows))
-	stillFails := false
 	for _, cmd := range []string{"phase", "phasent"} {
 		c := phaseRepro{Cmd: cmd, Sequences: len(rows), Threads: 8, Runs: 6}
 		base := []string{cmd, "-i", in, "--unaligned", "-o", "phased.fa", "--aa-output", "phased.aa.fa", "-l", "phase.log"}
 		one := execute(dir, "", append(append([]string{}, base...), "-t", "1"))
-		one2 := execute(dir, "", append(append([]string{}, base...), "-t", "1"))
-		var o pbt.Outcome
 		if one.Exit != 0 || one.empty() {
 			pbt.Fail(t, c, "goalign %s -t 1: exit %d, empty output %v", strings.Join(base, " "), one.Exit, one.empty())
 			continue
 		}
-		if d := diffSnap(one, one2); d != "" {
-			pbt.Fail(t, c, "goalign %s -t 1 is not reproducible: %s", strings.Join(base, " "), d)
+		ok := true
+		for r := 0; r < c.Runs+1 && ok; r++ {
+			th := c.Threads
+			if r == c.Runs {
+				th = 1
+			}
+			s := execute(dir, "", append(append([]string{}, base...), "-t", fmt.Sprint(th)))
+			if d := diffSnap(one, s); d != "" {
+				pbt.Fail(t, c, "goalign %s: execution %d with -t %d differs from -t 1 (%s): %s", strings.Join(base, " "), r+1, th, orderOnly(one, s), d)
+				ok = false
+			}
+		}
+		if !ok {
 			continue
 		}
-		differs := ""
-		for r := 0; r < c.Runs; r++ {
-			s := execute(dir, "", append(append([]string{}, base...), "-t", fmt.Sprint(c.Threads)))
-			if d := diffSnap(canonical(one), canonical(s)); d != "" {
-				pbt.Fail(t, c, "goalign %s -t %d does not print the same records as -t 1: %s", strings.Join(base, " "), c.Threads, d)
-				differs = ""
-				break
-			}
-			if d := diffSnap(one, s); d != "" && differs == "" {
-				differs = d
-			}
-		}
-		if differs != "" {
-			stillFails = true
-			if pbt.Known(phaseKey) {
-				o.Exclude(phaseKey)
-				o.Class("order differs (known finding)")
-			} else {
-				pbt.Fail(t, c, "goalign %s: with -t %d the output records come in a different order than with -t 1 (same records): %s", strings.Join(base, " "), c.Threads, differs)
-				continue
-			}
-		} else {
-			o.Class("same bytes for -t 1 and -t 8")
-		}
+		var o pbt.Outcome
 		o.NonTrivial = true
 		o.Class("cmd=%s", cmd)
 		pbt.Note(t, c, o)
 	}
-	if stillFails && pbt.Known(phaseKey) {
-		pbt.KnownFinding(t, phaseKey, "goalign phase/phasent --threads 8 on 80 sequences: the output records (sequences and log lines) are printed in the order the worker goroutines deliver them, different from run to run and from --threads 1 (the multiset of records is the same)")
-	}
 	pbt.Complete(t)
 }
-
-// ---- the listed reproduction of the second finding ----------------------------------------------
 
 type nameMapRepro struct {
 	Cmd   string `json:"cmd"`
@@ -364,7 +352,7 @@ type nameMapRepro struct {
 	Runs  int    `json:"runs"`
 }
 
-// TestNameMapOrder executes the reproduction of the name map finding: 12 sequences,
+// TestNameMapOrder is the reproduction of the defect repaired by 21f2412: 12 sequences,
 // `goalign trim name -a -m map.txt` and `goalign rename -e ... -m outmap.txt`, 8 executions each
 func TestNameMapOrder(t *testing.T) {
 	if cli.Binary() == "" {
@@ -377,7 +365,6 @@ func TestNameMapOrder(t *testing.T) {
 		rows = append(rows, gen.Row{Name: fmt.Sprintf("seq%02d", i), Seq: strings.Repeat("ACGT", 3)[i%4 : i%4+8]})
 	}
 	in := cli.TempFile(dir, ".fa", cli.Fasta(rows))
-	stillFails := false
 	for _, v := range []struct {
 		name string
 		file string
@@ -385,48 +372,29 @@ func TestNameMapOrder(t *testing.T) {
 	}{
 		{"trim name", "map.txt", []string{"trim", "name", "-i", in, "-a", "-m", "map.txt"}},
 		{"rename", "outmap.txt", []string{"rename", "-i", in, "-e", "seq(\\d+)", "-b", "t$1", "-m", "outmap.txt"}},
+		{"rename clean-names", "outmap.txt", []string{"rename", "-i", in, "--clean-names", "-m", "outmap.txt"}},
 	} {
 		c := nameMapRepro{Cmd: v.name, Names: len(rows), Runs: 8}
 		first := execute(dir, "", v.args)
-		var o pbt.Outcome
 		if first.Exit != 0 || strings.TrimSpace(first.Files[v.file]) == "" {
 			pbt.Fail(t, c, "goalign %s: exit %d, map file %q", strings.Join(v.args, " "), first.Exit, first.Files[v.file])
 			continue
 		}
-		differs := ""
-		bad := false
-		for r := 1; r < c.Runs; r++ {
+		ok := true
+		for r := 1; r < c.Runs && ok; r++ {
 			s := execute(dir, "", v.args)
-			if d := diffSnap(canonicalFiles(first, []string{v.file}), canonicalFiles(s, []string{v.file})); d != "" {
-				pbt.Fail(t, c, "goalign %s is not reproducible beyond the order of the lines of its map file: %s", strings.Join(v.args, " "), d)
-				bad = true
-				break
-			}
-			if d := diffSnap(first, s); d != "" && differs == "" {
-				differs = d
+			if d := diffSnap(first, s); d != "" {
+				pbt.Fail(t, c, "goalign %s: execution %d differs from the first one (%s): %s", strings.Join(v.args, " "), r+1, orderOnly(first, s), d)
+				ok = false
 			}
 		}
-		if bad {
+		if !ok {
 			continue
 		}
-		if differs != "" {
-			stillFails = true
-			if pbt.Known(nameMapKey) {
-				o.Exclude(nameMapKey)
-				o.Class("line order differs (known finding)")
-			} else {
-				pbt.Fail(t, c, "goalign %s: two executions write the lines of the name map file in a different order: %s", strings.Join(v.args, " "), differs)
-				continue
-			}
-		} else {
-			o.Class("same bytes in 8 executions")
-		}
+		var o pbt.Outcome
 		o.NonTrivial = true
 		o.Class("cmd=%s", v.name)
 		pbt.Note(t, c, o)
-	}
-	if stillFails && pbt.Known(nameMapKey) {
-		pbt.KnownFinding(t, nameMapKey, "goalign trim name -m / rename -e|--clean-names -m on 12 sequences: the lines of the name map file are written in Go map iteration order, different from run to run (the set of lines is the same)")
 	}
 	pbt.Complete(t)
 }
